@@ -73,6 +73,13 @@ class Unencodable:
         return True
 
 
+class Present:
+    """The field has to arrive with some value."""
+
+
+PRESENT = Present()
+
+
 def any_value_py(av):
     which = av.WhichOneof('value')
     if which is None:
@@ -89,8 +96,10 @@ def any_value_expected(v):
     if isinstance(v, bool):
         return ('bool_value', v)
     if isinstance(v, str):
-        return ('string_value', v)
+        return ('string_value', clean_text(v))
     if isinstance(v, int):
+        if not -2 ** 63 <= v < 2 ** 63:
+            return PRESENT          # how a number the wire type cannot hold is represented is not stated
         return ('int_value', v)
     if isinstance(v, float):
         return ('double_value', v)
@@ -119,9 +128,11 @@ def expect(s):
                            'children': [vid_expected(c) for c in v.children], 'truncated': bool(v.truncated)}
                        for k, v in s.var_lookup.items()},
         'ts_nanos': s.ts_nanos,
-        'frames': [{'file_name': f.file_name, 'short_path': f.short_path, 'method_name': f.method_name,
-                    'line_number': f.line_number, 'class_name': f.class_name or '', 'is_async': bool(f.is_async),
-                    'column_number': f.column_number or 0, 'transpiled_file_name': f.transpiled_file_name or '',
+        'frames': [{'file_name': clean_text(f.file_name), 'short_path': clean_text(f.short_path),
+                    'method_name': clean_text(f.method_name),
+                    'line_number': f.line_number, 'class_name': clean_text(f.class_name or ''), 'is_async': bool(f.is_async),
+                    'column_number': f.column_number or 0,
+                    'transpiled_file_name': clean_text(f.transpiled_file_name or ''),
                     'transpiled_line_number': f.transpiled_line_number or 0,
                     'transpiled_column_number': f.transpiled_column_number or 0,
                     'variables': [vid_expected(v) for v in f.variables], 'app_frame': bool(f.app_frame)}
@@ -167,6 +178,8 @@ def project(m):
 
 def first_diff(exp, got, path=''):
     """First differing field; None in the expectation is a wildcard (field must merely be present)."""
+    if isinstance(exp, Present):
+        return None if got != ('empty',) else '%s is empty' % path
     if isinstance(exp, Unencodable):
         return None if exp.matches(got) else '%s differs (text with unencodable characters: the rest must arrive, in ' \
                                              'order, and the field must not grow)' % path
@@ -210,9 +223,15 @@ def field_class(diff):
 
 TEXT = st.one_of(st.sampled_from(['', 'a', 'name', 'x' * 50, 'nul\x00byte', 'astral\U0001F600', 'é', 'tab\t', '"q"']),
                  st.text(max_size=6, alphabet=st.characters(blacklist_categories=['Cs'])))
+# text as the file system / environment hands it to Python (os.fsdecode: undecodable bytes become lone surrogates)
+FS_TEXT = st.one_of(TEXT, TEXT, st.sampled_from(['/srv/app/caf\udce9/mod.py', 'sur\ud800x', '\udc80', 'a\udc80b\udcffc']))
 SCALAR = st.one_of(st.booleans(), TEXT, st.integers(-2 ** 63, 2 ** 63 - 1), st.floats(allow_nan=False), st.binary(max_size=4))
 ATTR_VALUE = st.one_of(SCALAR, st.lists(st.integers(0, 5), max_size=3), st.lists(TEXT, max_size=3),
-                       st.dictionaries(st.sampled_from(['a', 'b']), SCALAR, max_size=2))
+                       st.dictionaries(st.sampled_from(['a', 'b']), SCALAR, max_size=2),
+                       # what a decorator plugin or the environment can put there: paths, counters of any size, sequences
+                       # with holes (BoundedAttributes accepts None elements)
+                       FS_TEXT, st.sampled_from([2 ** 63, 2 ** 70, -2 ** 63 - 1]),
+                       st.lists(st.one_of(st.none(), st.sampled_from(['p', 'q'])), min_size=1, max_size=3))
 VID = fd({'vid': st.sampled_from(['1', '2', '3', '10']), 'name': TEXT,
                              'modifiers': st.lists(st.sampled_from(['private', 'protected']), max_size=2),
                              'original_name': st.one_of(st.none(), TEXT)})
@@ -288,7 +307,7 @@ class C08(Prop):
                                  'MAX_TP_PROCESS_TIME', 'frame_type', 'stack_type', 'note']),
                 st.sampled_from(['5', '50', '1000', 'x', 'all_frame', 'stack', '']), max_size=2),
         })
-        frame = fd({'file_name': TEXT, 'short_path': TEXT, 'method_name': TEXT,
+        frame = fd({'file_name': FS_TEXT, 'short_path': FS_TEXT, 'method_name': TEXT,
                                        'line_number': st.integers(0, 2 ** 31 - 1),
                                        'class_name': st.one_of(st.none(), TEXT), 'is_async': st.booleans(),
                                        'column_number': st.integers(0, 1000),
